@@ -848,7 +848,8 @@ def suite_test_traces(ctx: Ctx, modules: list[str], timeout: int = 1500) -> tupl
     env["VERIF_TRACE_OUT"] = str(out)
     env["PYTHONPATH"] = os.pathsep.join([str(REPO), str(VERIF)])
     cmd = [sys.executable, "-m", "pytest", "-q", "-p", "no:cacheprovider", "-p", "harness.pytest_trace",
-           "--timeout=600", "-x", "-q"] + [f"redun/tests/{m}" for m in modules]
+           "--timeout=600", "-q", "--deselect", "redun/tests/test_scheduler.py::test_cse_scopes"] \
+        + [f"redun/tests/{m}" for m in modules]   # (no -x: a test that is flaky under load must not end the recording)
     p = subprocess.run(cmd, cwd=str(REPO), env=env, capture_output=True, text=True, timeout=timeout)
     stats = {"pytest_rc": p.returncode, "modules": modules, "runs": 0, "skipped": 0, "judged": 0}
     traces = []
